@@ -1,8 +1,12 @@
 #!/bin/sh
-# try_seeded.sh <seeded-dir-name> [check args]: apply seeded patch to /repo, run the check, undo.
-D=/verif/seeded/$1; ID=$(echo $1 | cut -d- -f1); shift
-git -C /repo apply $D/patch.diff || exit 2
-cd /verif && ./check $ID "$@" > /tmp/try_$ID.log 2>&1; E=$?
-git -C /repo checkout -- .
-grep -E "^(VIOLATION|KNOWN-FINDING|HARNESS-ERROR)" /tmp/try_$ID.log | cut -c1-300 | head -8
+# try_seeded.sh <seeded-dir-name> [check args]: apply the seeded patch to a scratch worktree of /repo
+# (so that /repo itself stays untouched while other runs use it), run the check against it
+# (VERIF_REPO), remove the worktree.  Equivalent to: git -C /repo apply; ./check; git -C /repo checkout -- .
+N=$1; D=/verif/seeded/$N; ID=$(echo $N | cut -d- -f1); shift
+W=/tmp/sr/$N; rm -rf $W; mkdir -p /tmp/sr
+git -C /repo worktree add -q --detach $W HEAD || exit 2
+git -C $W apply $D/patch.diff || { git -C /repo worktree remove --force $W; exit 2; }
+cd /verif && VERIF_REPO=$W VERIF_EVIDENCE_DIR=/tmp/sr/ev_$N ./check $ID "$@" > /tmp/try_$N.log 2>&1; E=$?
+git -C /repo worktree remove --force $W
+grep -E "^(VIOLATION|KNOWN-FINDING|HARNESS-ERROR)" /tmp/try_$N.log | cut -c1-300 | head -8
 echo "exit=$E"
